@@ -535,9 +535,19 @@ def setstate (h : Heap) (self : AObj) (b : Nat) (stateMd : Nat) : AObj × Heap :
   let (d, h1) := h.deepCopy stateMd
   ({ self with md := some d, buf := b }, h1)
 
+/-- `Grid.__deepcopy__(self, memo)`: `super().__deepcopy__(memo)` (a new array of the same class and
+    `__array_finalize__(result, self)`, whose shallow dict copy is then dropped), followed by
+    `result._metadata = copy.deepcopy(self._metadata, memo)` -/
+def deepcopyHook (h : Heap) (o : AObj) : AObj × Heap :=
+  let (b', h1) := h.copyBuf o.buf
+  let (res, h2) := arrayFinalize h1 { cls := o.cls, buf := b', md := none } (some o)
+  let (d', h3) := h2.deepCopy (o.md.getD h2.next)
+  ({ res with md := some d' }, h3)
+
 /-- the hook a copy route goes through (observed on numpy 2.x: `ndarray` defines `copy`, `__copy__`
     and `__deepcopy__`, all of which allocate a new array of the same subclass and call
-    `__array_finalize__`; only pickling uses `__reduce__`/`__setstate__`) -/
+    `__array_finalize__`; `Grid.__deepcopy__` adds a deep copy of the metadata on top; only pickling uses
+    `__reduce__`/`__setstate__`) -/
 inductive Route
   | objCopy            -- obj.copy()
   | copyCopy           -- copy.copy(obj)
@@ -546,13 +556,19 @@ inductive Route
   | pickle (protocol : Nat)
   deriving DecidableEq, Repr
 
-inductive Hook | finalizeFrom | finalizeNone | reduce | setstate
+inductive Hook | finalizeFrom | finalizeNone | reduce | setstate | deepcopy
   deriving DecidableEq, Repr
 
 /-- sequence of Grid hooks each route triggers -/
 def Route.hooks : Route → List Hook
   | .pickle _ => [.reduce, .finalizeNone, .setstate]
+  | .copyDeepcopy => [.deepcopy, .finalizeFrom]
   | _ => [.finalizeFrom]
+
+/-- the routes that deep-copy the metadata values -/
+def Route.deep : Route → Bool
+  | .copyDeepcopy | .pickle _ => true
+  | _ => false
 
 /-- run a copy route on object `o` -/
 def copyVia (r : Route) (h : Heap) (o : AObj) : AObj × Heap :=
@@ -565,6 +581,7 @@ def copyVia (r : Route) (h : Heap) (o : AObj) : AObj × Heap :=
     -- `_reconstruct(cls, (0,), b'b')`: empty array of class `cls`; `__array_finalize__(None)`
     let (blank, h3) := arrayFinalize h2 { cls := cls, buf := b', md := none } none
     setstate h3 blank b' md'
+  | .copyDeepcopy => deepcopyHook h o
   | _ =>
     let (b', h1) := h.copyBuf o.buf
     arrayFinalize h1 { cls := o.cls, buf := b', md := none } (some o)
